@@ -173,10 +173,14 @@ class PreprocessorHexagon:
         """
 
         match = re.match(
-            r"\{.*__COMPOUND_PART1__(\{.+})__COMPOUND_PART1__(.*)}$", insn_beh
+            r"\{(.*)__COMPOUND_PART1__(\{.+})__COMPOUND_PART1__(.*)}$", insn_beh
         )
-        beh_p1 = match.group(1)
-        beh_p2 = "{" + match.group(2) + "}"  # brackets were excluded in regex.
+        if match.group(1).strip():
+            raise ValueError(
+                f"Code in front of the first part of a compound is not handled: {match.group(1)}"
+            )
+        beh_p1 = match.group(2)
+        beh_p2 = "{" + match.group(3) + "}"  # brackets were excluded in regex.
         return beh_p1, beh_p2
 
     @staticmethod
